@@ -92,18 +92,26 @@ class V(steps.Visitor):
 
 def run(tier, seed):
     texts, heavy = steps.start_texts(tier, "expr")
-    depth = 1 if tier == "quick" else 2
+    # quick: one step from every start tree, two steps from the reduced set.
+    # thorough: one step from every start tree of the larger families, two steps from every quick start tree.
+    depth = 1
     acc = steps.run(V, texts, depth, "expr", seed, heavy)
-    small = steps.small_texts("expr") if tier == "quick" else texts[heavy:][::3]
     if tier == "quick":
+        small = steps.small_texts("expr")
         acc.merge(steps.run(V, small, 2, "expr", seed, 0, key="small"))  # clone mode, closure depth 2
+    else:
+        qtexts, qh = steps.start_texts("quick", "expr")
+        acc.merge(steps.run(V, qtexts, 2, "expr", seed, qh, key="quickset"))
+        small = qtexts[qh:][::3]
     acc.merge(steps.run(V, small, "inplace", "expr", seed, 0, key="small"))  # live-tree mode, 2 steps
     cov = {
         "states": len(acc.keys),
         "transitions": acc.n["transitions"],
         "traces_validated_against_impl": acc.n["transitions"],
         "exhaustive": True,
-        "bound": {"start_texts": len(texts), "closure_depth": depth, "depth2_and_inplace_start_texts": len(small)},
+        "bound": {"start_texts": len(texts), "closure_depth_all": depth,
+                  "closure_depth_2_start_texts": len(small) if tier == "quick" else "all quick start texts",
+                  "inplace_start_texts": len(small)},
         "inplace_transitions": acc.n["inplace_transitions"],
         "decided_by_degree_bound": acc.n["decided"],
         "tested_only": acc.n["tested_only"],
